@@ -33,7 +33,7 @@ Section Inv.
       form both filesystems report, and both accept them *)
   Definition links_ok (s : store) : Prop :=
     forall p m t, s !! p = Some (Link m t) ->
-      tnb t = t /\ tnk t = t /\ t <> [] /\ accb t p /\ acck t p.
+      tnb t = t /\ tnk t = t /\ t <> [] /\ accb t p /\ acck t p /\ m_perm m = 511.
 
   Record Inv (w : world) : Prop := mkInv {
     inv_quiet : quiet w;
